@@ -244,3 +244,30 @@ def add_empty_row_records(members):
                         changed = True
         out.append((n, f.to_buffer() if changed else d))
     return out, added
+
+
+def reverse_tile_refs(members):
+    """List the tile references of every table in reverse order (each reference carries its own tile id, each row record its own row): the
+    stored order of the references means nothing.  Returns the number of tables changed."""
+    from numbers_parser.iwafile import IWAFile
+    out, n = [], 0
+    for name, d in members:
+        f = None
+        if name.endswith(".iwa"):
+            try:
+                f = IWAFile.from_buffer(d, name)
+            except Exception:  # noqa: BLE001
+                f = None
+        changed = False
+        if f is not None:
+            for ch in f.chunks:
+                for ar in ch.archives:
+                    for o in ar.objects:
+                        if type(o).__name__ == "TableModelArchive" and len(o.base_data_store.tiles.tiles) > 1:
+                            refs = [type(t).FromString(t.SerializeToString()) for t in o.base_data_store.tiles.tiles]
+                            del o.base_data_store.tiles.tiles[:]
+                            o.base_data_store.tiles.tiles.extend(reversed(refs))
+                            changed = True
+                            n += 1
+        out.append((name, f.to_buffer() if changed else d))
+    return out, n
